@@ -419,7 +419,16 @@ class Result(object):
 
 
 class Parser(object):
-    def __init__(self, src):
+    # dialect switches used only to *classify* disagreements by mechanism
+    # (a known deviation of the implementation = one switch); the oracle
+    # itself always runs with all of them off.
+    lenient_function_statement = False
+
+    def __init__(self, src, **dialect):
+        for k, v in dialect.items():
+            if not hasattr(type(self), k):
+                raise TypeError(k)
+            setattr(self, k, v)
         self.src = src
         self.sc = Scanner(src)
         self.res = Result()
@@ -628,6 +637,8 @@ class Parser(object):
                 self.consume_semicolon()
                 return R('Debugger', first, self.last_index(), value='debugger')
             if v == 'function':
+                if self.lenient_function_statement:
+                    return self._lenient_function_statement(first)
                 return self.parse_function(True)
             if v not in RESERVED:
                 # possible label: Identifier ':'
@@ -647,6 +658,36 @@ class Parser(object):
         if t.kind == 'name' and t.value == 'function' and 'escaped' not in t.flags:
             self.error('expression_statement_starts_with_function')
         e = self.parse_expression(False)
+        self.consume_semicolon()
+        return R('ExprStatement', first, self.last_index(), expr=e)
+
+    _CONTINUES_EXPRESSION = frozenset(
+        '. * / % < > <= >= == != === !== << >> >>> & | ^ && || ? , = += -= *= /= %= <<= >>= >>>= &= |= ^='.split())
+
+    def _lenient_function_statement(self, first):
+        """the implementation's LALR tables: 'function' at statement start is
+        a declaration unless it is anonymous or followed by a token that can
+        only continue an expression"""
+        save = (self.tok, self.prev_end)
+        ntok = len(self.tokens)
+        nasi = len(self.res.asi)
+        anonymous = False
+        try:
+            decl = self.parse_function(True)
+        except RefSyntaxError as e:
+            if e.kind != 'function_statement_without_name':
+                raise
+            anonymous = True
+        if not anonymous:
+            t = self.tok
+            if not ((t.kind == 'punct' and t.value in self._CONTINUES_EXPRESSION) or
+                    (t.kind == 'name' and t.value in ('in', 'instanceof'))):
+                return decl
+        self._rewind(save, ntok)
+        del self.res.asi[nasi:]
+        e = self.parse_expression(False)
+        if e.kind == 'FuncExpr':
+            self.error('function_statement_without_name')
         self.consume_semicolon()
         return R('ExprStatement', first, self.last_index(), expr=e)
 
@@ -1150,9 +1191,9 @@ class Parser(object):
         return R('Object', first, self.last_index(), properties=props)
 
 
-def parse(src):
+def parse(src, **dialect):
     """Parse ``src``; returns a Result or raises RefSyntaxError."""
-    return Parser(src).parse_program()
+    return Parser(src, **dialect).parse_program()
 
 
 def tokenize(src, regex_after=None):
